@@ -3,7 +3,14 @@ package main
 // splitmix64-based deterministic PRNG: every random choice of a run derives from VERIF_SEED.
 type RNG struct{ s uint64 }
 
-func NewRNG(seed uint64) *RNG { return &RNG{s: seed*0x9E3779B97F4A7C15 + 0x1234567} }
+// NewRNG: the state is a mixed function of the seed, so that generators seeded with neighbouring numbers
+// (party 1 / party 2 of a scenario) do not produce shifted copies of one stream.
+func NewRNG(seed uint64) *RNG {
+	z := seed*0x9E3779B97F4A7C15 + 0x1234567
+	z = (z ^ (z >> 30)) * 0xBF58476D1CE4E5B9
+	z = (z ^ (z >> 27)) * 0x94D049BB133111EB
+	return &RNG{s: z ^ (z >> 31)}
+}
 
 func (r *RNG) U64() uint64 {
 	r.s += 0x9E3779B97F4A7C15
